@@ -185,6 +185,8 @@ def generate(tier):
             for ctx in CTX[1:]:
                 for cfg in (('P', 'EP') if tier == 'quick' else CFGS):
                     cases.append(build(sh, assign, cfg, ctx=ctx))
+    from .common import decoy_layer
+    cases += decoy_layer([c for c in cases if c is not None])
     seen, out = set(), []
     for c in cases:
         if c.key not in seen:
